@@ -1,5 +1,6 @@
 """C18 - policies in force follow the policy files; built-in policies are untouchable (structural part)."""
 import ast
+from ..polmodel import enum_table
 
 from ..astutil import (U, dotted, get_class, get_method, get_function, methods, walk_local, is_self_attr, call_name, short, params)
 from ..cfg import CFG, calls_at, expr_nodes
@@ -313,6 +314,99 @@ def check_snapshots(ctx, ms):
                 ctx.ok('C18.R6', site, 'loop updates %s; every value derived from them that is used in the body is computed inside the loop' % sorted(written))
     ctx.count('loops_updating_policy_structures', n_loops, 4)
     ctx.analysed['write_summaries'] = {k: {f: sorted('key=param%s' % i if i is not None else 'other' for i in v) for f, v in d.items()} for k, d in summ.items() if d}
+
+
+def check_parser_by_folding(ctx, pt):
+    """C18.R11: read_policy_from_file, with parse_policy folded through, is evaluated on a finite family of policy documents
+    (pv/fold.py; json.loads is modelled as returning the document): it must return normally exactly for the valid ones and raise
+    ValueError - nothing else - for every invalid one, because the monitor catches ValueError only."""
+    from ..fold import Folder, Opaque, Unfoldable, Raised
+    ctx.rule('C18.R11', 'the policy file reader, folded over a family of documents (valid and invalid sections, object types, operations, permissions; unknown sections next to valid ones; section names mixed with object types; non-object shapes at every level; several policies in one file), returns normally exactly for the valid documents and raises ValueError - no other exception - for every invalid one: the directory monitor catches ValueError only, so any other exception aborts the scan instead of rejecting the file')
+    rpf = get_function(pt, 'read_policy_from_file')
+    site = '%s:%s read_policy_from_file' % (POLICY, rpf.lineno)
+    fns = {f.name: f for f in pt.body if isinstance(f, ast.FunctionDef)}
+    enum_members = {k: list(enum_table(ctx.src, k)) for k in ('ObjectType', 'Operation', 'Policy')}
+    OT = 'SYMMETRIC_KEY'
+    good = {OT: {'GET': 'ALLOW_ALL', 'DESTROY': 'ALLOW_OWNER'}}
+    sections = [('valid', True, good),
+                ('unknown object type', False, {'NOPE': {'GET': 'ALLOW_ALL'}}),
+                ('unknown operation', False, {OT: {'NOPE': 'ALLOW_ALL'}}),
+                ('unknown permission', False, {OT: {'GET': 'NOPE'}}),
+                ('permission is a list', False, {OT: {'GET': ['ALLOW_ALL']}}),
+                ('operations not an object', False, {OT: 'x'}),
+                ('section is a string', False, 'x'),
+                ('section is a list', False, ['x'])]
+    policies = [('empty policy', True, {})]
+    for sn, sv, sec in sections:
+        policies.append(('preset: %s' % sn, sv, {'preset': sec}))
+        policies.append(('group section: %s' % sn, sv, {'groups': {'g1': sec}}))
+        policies.append(('legacy form: %s' % sn, sv if isinstance(sec, dict) else False, sec if isinstance(sec, dict) else {'preset': sec}))
+        policies.append(('valid preset + group section: %s' % sn, sv, {'preset': good, 'groups': {'g1': sec}}))
+    policies += [('groups is a string', False, {'groups': 'x'}),
+                 ('unknown section only', False, {'bogus': good}),
+                 ('unknown section next to a valid preset', False, {'preset': good, 'bogus': good}),
+                 ('unknown section next to valid groups', False, {'groups': {'g1': good}, 'bogus': good}),
+                 ('section name mixed with an object type', False, {'preset': good, 'CERTIFICATE': {'GET': 'ALLOW_ALL'}}),
+                 ('policy is a string', False, 'x'), ('policy is a list', False, [good])]
+    docs = [('document is a list', False, [1]), ('document is a string', False, 'x'), ('empty document', True, {})]
+    for pn, pv_, pol in policies:
+        docs.append((pn, pv_, {'p': pol}))
+        docs.append(('a valid policy followed by: %s' % pn, pv_, {'a': {'preset': good}, 'p': pol}))
+    import copy as _copy
+    bad = []
+    n = 0
+    try:
+        for dn, valid, doc in docs:
+            f = Folder(models={'json.loads': lambda *a, **k: _copy.deepcopy(doc), 'json.load': lambda *a, **k: _copy.deepcopy(doc),
+                               'six.iteritems': lambda d: list(d.items()) if isinstance(d, dict) else (_ for _ in ()).throw(Raised('AttributeError', None)),
+                               'six.iterkeys': lambda d: list(d.keys()) if isinstance(d, dict) else (_ for _ in ()).throw(Raised('AttributeError', None)),
+                               'six.itervalues': lambda d: list(d.values()) if isinstance(d, dict) else (_ for _ in ()).throw(Raised('AttributeError', None))},
+                       opaque_calls={'open', 'io.open'}, steps=50000)
+            f.enum_tables = enum_members
+            for fname, fn_ in fns.items():
+                if fname == 'read_policy_from_file':
+                    continue
+
+                def mk(fn__):
+                    def run_(*args, **kw):
+                        ps_ = [a_.arg for a_ in fn__.args.args]
+                        env_ = dict(f.__dict__.get('_globals', {}))
+                        env_.update(zip(ps_, args))
+                        env_.update(kw)
+                        r_ = f.run(fn__.body, env_)
+                        return r_[1] if r_[0] == 'return' else None
+                    return run_
+                f.models[fname] = mk(fn_)
+            env = {}
+            # module-level constants (e.g. the set of section names hoisted out of the function)
+            for st_ in pt.body:
+                if isinstance(st_, ast.Assign) and len(st_.targets) == 1 and isinstance(st_.targets[0], ast.Name) and st_.targets[0].id != 'policies':
+                    try:
+                        env[st_.targets[0].id] = f.ev(st_.value, env)
+                    except (Unfoldable, Raised):
+                        pass
+            f.__dict__['_globals'] = dict(env)
+            env[params(rpf, skip_self=False)[0]] = 'policy.json'
+            try:
+                f.run(rpf.body, env)
+                outcome = 'accepted'
+            except Raised as ex:
+                outcome = (ex.name or '').split('.')[-1]
+            n += 1
+            want = 'accepted' if valid else 'ValueError'
+            if outcome != want:
+                bad.append((dn, outcome, want))
+    except Unfoldable as ex:
+        raise AnalysisError('unrecognised construct: the policy file reader cannot be folded (%s)' % ex)
+    ctx.count('policy_documents_folded', n, 60)
+    classes = {}
+    for dn, outcome, want in bad:
+        key = 'accepts an invalid document' if outcome == 'accepted' else ('rejects a valid document' if want == 'accepted' else 'raises %s instead of ValueError' % outcome)
+        classes.setdefault(key, []).append(dn)
+    if not bad:
+        ctx.ok('C18.R11', site, 'all %d model documents: valid ones accepted, invalid ones rejected with ValueError' % n)
+    for key, dns in sorted(classes.items()):
+        ctx.fail('C18.R11', 'read_policy_from_file|%s' % key, site, 'the policy file reader %s for %d of %d model documents, e.g.: %s' % (key, len(dns), n, '; '.join(dns[:3])))
 
 
 def run(ctx):
@@ -801,6 +895,7 @@ def run(ctx):
                     ctx.check(shaped, 'C18.R2', '%s|%s%s' % (fname, var, op), site, '%s%s on a dict-checked value' % (var, op),
                               '%s%s assumes a JSON object, but %s comes from json.loads unchecked: a list/number/string there raises AttributeError, which the monitor does not catch (it catches ValueError only)' % (var, op, var))
     ctx.count('mapping_assuming_operations', n_ops, 5)
+    check_parser_by_folding(ctx, pt)
     ctx.count('document_keyed_lookups', n_lookups, 3)
     ctx.not_decided += ['the shadow/restore semantics over arbitrary sequences of file events (a runtime state machine; model checking would be the fitting technique)',
                         'mtime granularity / files changing during a scan']
